@@ -1,7 +1,8 @@
 (* C28 — proofs, part 3: conflicting accesses are ORDERED BY THE LOCK.
    If thread t performs a body step inside its critical section and later another thread t' performs one,
    and at least one of the two sections is exclusive, then between the two accesses t released the mutex
-   and, after that, t' acquired it:   access(t) ... Rel t ... Acq t' ... access(t').
+   (Unlock, or Cond.Wait which unlocks) and, after that, t' acquired it:
+       access(t) ... Rel t | Wait t ... Acq t' ... access(t').
    (program order, then the release/acquire pair of the mutex, then program order = happens-before). *)
 From Coq Require Import List Arith Lia.
 From LV Require Import model.Lin proofs.LinSim.
@@ -12,19 +13,24 @@ Section HB.
   Variable linit : op -> local.
   Variable mstep : op -> local -> state -> local * state.
   Variable fin : op -> local -> option ret.
+  Variable waits : op -> local -> bool.
+  Variable wstep : op -> local -> local.
   Variable kind : op -> lkind.
   Variable s0 : state.
 
   Hypothesis Hshared : shared_readonly state op local mstep kind.
   Hypothesis Hnone : none_stateless state op local mstep kind.
+  Hypothesis Hwexcl : wait_excl op local waits kind.
+  Variable resumable : op -> local -> Prop.
+  Hypothesis Hres : resumable_inv state op ret local linit mstep fin waits wstep resumable.
 
   Notation config := (config state op ret local).
   Notation action := (action op ret).
-  Notation step := (step state op ret local linit mstep fin kind).
-  Notation exec := (exec state op ret local linit mstep fin kind s0).
+  Notation step := (step state op ret local linit mstep fin waits wstep kind).
+  Notation exec := (exec state op ret local linit mstep fin waits wstep kind s0).
   Notation upd := (upd op ret local).
 
-  Notation run := (run state op ret local linit mstep fin kind).
+  Notation run := (run state op ret local linit mstep fin waits wstep kind).
 
   Lemma exec_run : forall pre c seg c', exec pre c -> run c seg c' -> exec (pre ++ seg) c'.
   Proof.
@@ -53,33 +59,37 @@ Section HB.
 
   (* the thread an action belongs to *)
   Definition actor (a : action) : tid :=
-    match a with Inv _ _ t _ | Acq _ _ t | Body _ _ t | Rel _ _ t | Ret _ _ t _ => t end.
+    match a with Inv _ _ t _ | Acq _ _ t | Body _ _ t | Wait _ _ t | Rel _ _ t | Ret _ _ t _ => t end.
 
   Lemma step_other : forall c a c' t, step c a c' -> actor a <> t -> th _ _ _ _ c' t = th _ _ _ _ c t.
   Proof. intros c a c' t Hs Hne; destruct Hs; simpl in *; now rewrite upd_other' by auto. Qed.
 
-  (* inside a critical section the only actions of the thread are body steps and the release *)
+  (* the actions by which t gives the mutex up *)
+  Definition leaves (t : tid) (a : action) : Prop := a = Rel _ _ t \/ a = Wait _ _ t.
+
+  (* inside a critical section the only actions of the thread are body steps, the release and the wait *)
   Lemma step_incs : forall c a c' t o l, step c a c' -> th _ _ _ _ c t = InCS _ _ _ o l -> actor a = t ->
-    (a = Body _ _ t /\ exists l', th _ _ _ _ c' t = InCS _ _ _ o l') \/ a = Rel _ _ t.
+    (a = Body _ _ t /\ exists l', th _ _ _ _ c' t = InCS _ _ _ o l') \/ leaves t a.
   Proof.
     intros c a c' t o l Hs Hcs Ha; destruct Hs; simpl in *; subst; try congruence.
     - left. split; auto. rewrite upd_same'. rewrite Hcs in H. inversion H; subst. eauto.
-    - now right.
+    - right; now right.
+    - right; now left.
   Qed.
 
   (* (iii) without a release the thread stays in the same critical section *)
   Lemma stays_incs : forall c seg c', run c seg c' -> forall t o l,
-    th _ _ _ _ c t = InCS _ _ _ o l -> ~ In (Rel _ _ t) seg -> exists l', th _ _ _ _ c' t = InCS _ _ _ o l'.
+    th _ _ _ _ c t = InCS _ _ _ o l -> ~ Exists (leaves t) seg -> exists l', th _ _ _ _ c' t = InCS _ _ _ o l'.
   Proof.
     intros c seg c' Hrun; induction Hrun as [c|c a c1 tr c2 Hs Hr IH]; intros t o l Hcs Hno.
     - eauto.
     - destruct (Nat.eq_dec (actor a) t) as [Ea|Hne].
       + destruct (step_incs _ _ _ _ _ _ Hs Hcs Ea) as [[_ [l' Hcs']]|Hrel].
-        * eapply IH; eauto. intro Hin; apply Hno; now right.
-        * exfalso; apply Hno; left; auto.
+        * eapply IH; [exact Hcs'|]. intro Hin; apply Hno; now apply Exists_cons_tl.
+        * exfalso; apply Hno; now apply Exists_cons_hd.
       + eapply IH.
         * rewrite (step_other _ _ _ _ Hs Hne). exact Hcs.
-        * intro Hin; apply Hno; now right.
+        * intro Hin; apply Hno; now apply Exists_cons_tl.
   Qed.
 
   (* (ii) a thread gets into a critical section of a given class only by acquiring *)
@@ -106,7 +116,8 @@ Section HB.
         { destruct Hin1 as [o [l [Hcs Hp]]].
           destruct (Nat.eq_dec (actor a) t) as [Ea|Hne].
           - destruct Hs as [c t0 o0 Hidle | c t0 o0 l0 Hinv Hk Hfree | c t0 o0 l0 Hinv Hk Hfree
-                           | c t0 o0 l0 l1 s1 Hcs0 Hfin Hms | c t0 o0 l0 l1 s1 Hinv Hk Hfin Hms
+                           | c t0 o0 l0 l1 s1 Hcs0 Hfin Hnw Hms | c t0 o0 l0 Hcs0 Hfin Hw
+                           | c t0 o0 l0 l1 s1 Hinv Hk Hfin Hnw Hms
                            | c t0 o0 l0 r Hcs0 Hfin | c t0 o0 l0 r Hinv Hk Hfin | c t0 o0 r Hrel];
               simpl in *; subst; rewrite upd_same' in Hcs; try discriminate; auto.
             (* body inside the section: was already inside *)
@@ -116,37 +127,39 @@ Section HB.
       + destruct (IH t Hnot1 Hin) as [s1 [s2 E]]. exists (a :: s1), s2. now rewrite E.
   Qed.
 
-  (* is this action the release of t ?  (no decidable equality on op / ret is needed) *)
-  Lemma action_eq_rel : forall (a : action) t, a = Rel _ _ t \/ a <> Rel _ _ t.
+  (* does this action give up t's mutex?  (no decidable equality on op / ret is needed) *)
+  Lemma leaves_dec : forall (a : action) t, leaves t a \/ ~ leaves t a.
   Proof.
-    intros a t; destruct a as [t0 o0|t0|t0|t0|t0 r0]; try (right; discriminate).
-    destruct (Nat.eq_dec t0 t) as [->|Hne]; [left; reflexivity|right; intro H; inversion H; contradiction].
+    intros a t; unfold leaves; destruct a as [t0 o0|t0|t0|t0|t0|t0 r0];
+      try (right; intros [H|H]; discriminate);
+      destruct (Nat.eq_dec t0 t) as [->|Hne]; auto;
+      right; intros [H|H]; inversion H; contradiction.
   Qed.
 
-  Lemma in_dec_rel : forall (seg : list action) t, In (Rel _ _ t) seg \/ ~ In (Rel _ _ t) seg.
+  Lemma exists_leaves_dec : forall (seg : list action) t, Exists (leaves t) seg \/ ~ Exists (leaves t) seg.
   Proof.
-    induction seg as [|a seg IH]; intro t; simpl; [right; tauto|].
-    destruct (action_eq_rel a t) as [E|Hne]; [left; now left|].
-    destruct (IH t) as [H|H]; [left; now right|right; intros [E|H']; auto].
+    induction seg as [|a seg IH]; intro t; [right; intro H; inversion H|].
+    destruct (leaves_dec a t) as [E|Hne]; [left; now apply Exists_cons_hd|].
+    destruct (IH t) as [H|H]; [left; now apply Exists_cons_tl|right; intro H'; inversion H'; auto].
   Qed.
 
-  (* first release of a thread in a segment *)
-  Lemma first_rel : forall (seg : list action) t,
-    In (Rel _ _ t) seg -> exists s1 s2, seg = s1 ++ Rel _ _ t :: s2 /\ ~ In (Rel _ _ t) s1.
+  (* first time t gives the mutex up in a segment *)
+  Lemma first_leave : forall (seg : list action) t,
+    Exists (leaves t) seg -> exists s1 x s2, seg = s1 ++ x :: s2 /\ leaves t x /\ ~ Exists (leaves t) s1.
   Proof.
-    induction seg as [|a seg IH]; simpl; intros t Hin; [contradiction|].
-    destruct (action_eq_rel a t) as [Ea|Hne].
-    - exists [], seg; split; [now rewrite Ea|auto].
-    - destruct Hin as [E|Hin]; [contradiction|].
-      destruct (IH t Hin) as [s1 [s2 [E Hno]]]. exists (a :: s1), s2. split; [now rewrite E|].
-      intros [E'|Hin']; auto.
+    induction seg as [|a seg IH]; intros t Hin; [inversion Hin|].
+    destruct (leaves_dec a t) as [Ea|Hne].
+    - exists [], a, seg; split; [reflexivity|]. split; auto. intro H; inversion H.
+    - inversion Hin as [? ? H|? ? H]; subst; [contradiction|].
+      destruct (IH t H) as [s1 [x [s2 [E [Hx Hno]]]]]. exists (a :: s1), x, s2. split; [now rewrite E|].
+      split; auto. intro H'; inversion H'; auto.
   Qed.
 
   Lemma mx : forall tr c t o l t' o' l', exec tr c -> th _ _ _ _ c t = InCS _ _ _ o l -> kind o = KExcl ->
     t' <> t -> th _ _ _ _ c t' = InCS _ _ _ o' l' -> False.
   Proof.
     intros tr c t o l t' o' l' He H1 Hk Hne H2.
-    apply (mutual_exclusion state op ret local linit mstep fin kind s0 Hshared Hnone tr c t o l He H1 Hk t' Hne).
+    apply (mutual_exclusion state op ret local linit mstep fin waits wstep kind s0 Hshared Hnone Hwexcl resumable Hres tr c t o l He H1 Hk t' Hne).
     now exists o', l'.
   Qed.
 
@@ -157,13 +170,13 @@ Section HB.
     exec pre c0 -> th _ _ _ _ c0 t = InCS _ _ _ o l -> step c0 (Body _ _ t) c1 ->     (* first access, by t *)
     run c1 mid c2 -> th _ _ _ _ c2 t' = InCS _ _ _ o' l' ->                           (* second access enabled, by t' *)
     t <> t' -> kind o = KExcl \/ kind o' = KExcl ->
-    exists m1 m2 m3, mid = m1 ++ Rel _ _ t :: m2 ++ Acq _ _ t' :: m3.
+    exists m1 x m2 m3, mid = m1 ++ x :: m2 ++ Acq _ _ t' :: m3 /\ leaves t x.
   Proof.
     intros pre c0 c1 mid c2 t t' o l o' l' Hex Hcs Hstep Hrun Hcs' Hne Hconf.
     assert (Hex1 : exec (pre ++ [Body _ _ t]) c1) by (eapply e_snoc; eauto).
     (* t is still inside its section after the body step *)
     assert (Hcs1 : exists l1, th _ _ _ _ c1 t = InCS _ _ _ o l1).
-    { destruct (step_incs _ _ _ _ _ _ Hstep Hcs eq_refl) as [[_ H]|H]; [exact H|discriminate]. }
+    { destruct (step_incs _ _ _ _ _ _ Hstep Hcs eq_refl) as [[_ H]|[H|H]]; [exact H|discriminate|discriminate]. }
     destruct Hcs1 as [l1 Hcs1].
     (* mutual exclusion at a reachable configuration *)
     assert (Hmx : forall tr c lt lt', exec tr c -> th _ _ _ _ c t = InCS _ _ _ o lt ->
@@ -172,17 +185,17 @@ Section HB.
       - exact (mx tr c t o lt t' o' lt' He H1 Hk (not_eq_sym Hne) H2).
       - exact (mx tr c t' o' lt' t o lt He H2 Hk Hne H1). }
     (* 1. t must release inside mid *)
-    assert (Hrel : In (Rel _ _ t) mid).
-    { destruct (in_dec_rel mid t) as [Hin|Hno]; auto. exfalso.
+    assert (Hrel : Exists (leaves t) mid).
+    { destruct (exists_leaves_dec mid t) as [Hin|Hno]; auto. exfalso.
       destruct (stays_incs _ _ _ Hrun t o l1 Hcs1 Hno) as [l2 Hcs2].
       eapply (Hmx (pre ++ [Body _ _ t] ++ mid) c2); eauto.
       rewrite app_assoc. eapply exec_run; eauto. }
-    destruct (first_rel mid t Hrel) as [m1 [rest [E Hno1]]]. subst mid.
+    destruct (first_leave mid t Hrel) as [m1 [x [rest [E [Hlv Hno1]]]]]. subst mid.
     destruct (run_split _ _ _ _ Hrun) as [cu [Hrun1 Hrun2]].
     destruct (stays_incs _ _ _ Hrun1 t o l1 Hcs1 Hno1) as [lu Hcsu].
     assert (Hexu : exec ((pre ++ [Body _ _ t]) ++ m1) cu) by (eapply exec_run; eauto).
     (* 2. at the release, t' is not inside the section it is in at the second access (of that class) *)
-    set (p := fun x : op => if is_excl o then true else is_excl x).
+    set (p := fun y : op => if is_excl o then true else is_excl y).
     assert (Hnot : ~ in_cs_where p cu t').
     { intros [ox [lx [Hx Hp]]]. unfold p in Hp.
       destruct (is_excl o) eqn:Eo.
@@ -197,10 +210,11 @@ Section HB.
       unfold is_excl in *. destruct Hconf as [Hk|Hk]; rewrite Hk in *; [discriminate|reflexivity]. }
     (* the release itself does not move t' *)
     inversion Hrun2 as [|? ? cv ? ? Hs Hr]; subst.
+    assert (Hact : actor x = t) by (destruct Hlv as [-> | ->]; reflexivity).
     assert (Hnotv : ~ in_cs_where p cv t').
-    { intros [ox [lx [Hx Hp]]]. apply Hnot. exists ox, lx; split; auto.
-      rewrite <- (step_other _ _ _ t' Hs); [exact Hx | simpl; auto]. }
+    { intros [ox [lx [Hxx Hp]]]. apply Hnot. exists ox, lx; split; auto.
+      rewrite <- (step_other _ _ _ t' Hs); [exact Hxx | rewrite Hact; auto]. }
     destruct (enters_by_acq p _ _ _ Hr t' Hnotv Hin) as [m2 [m3 E]].
-    exists m1, m2, m3. now rewrite E.
+    exists m1, x, m2, m3. split; [now rewrite E|exact Hlv].
   Qed.
 End HB.
